@@ -92,6 +92,12 @@ func c02alphabet(ns string) []c02elem {
 	}
 	add("unknown-namespace", "plain", "<x xmlns='urn:totally:unknown'><message xmlns='"+ns+"' id='hidden'/></x>", "", "", "", "")
 	add("known-ns-unknown-name", "plain", "<blob id='b1'><body>x</body></blob>", "", "", "", "")
+	// an XHTML-IM body (decoded by a dedicated type), and foreign content whose element names are those of HTML
+	// void elements, with content of their own: whatever a decoder does while reading the first must not change
+	// how the rest of the stream is read
+	add("message/xhtml-im", "plain", "<message id='h1' type='chat'><body>hi</body><html xmlns='http://jabber.org/protocol/xhtml-im'><body xmlns='http://www.w3.org/1999/xhtml' xml:lang='en'><p style='font-weight:bold'>hi<br/>there</p><img src='http://x/y.png' alt='y'/></body></html></message>", "stanza.Message", "h1", "chat", "")
+	add("iq/unknown-payload-html-void-names", "unknown-child", iq(" id='v1' type='set'", "<x xmlns='urn:unknown'><link rel='alternate'>http://x/</link><param><value>1</value></param><input>text</input><meta><br>deep</br></meta><img>i</img><hr>h</hr></x>"), "*stanza.IQ", "v1", "set", "")
+	add("message/unknown-ext-html-void-names", "unknown-child", "<message id='v2'><entry xmlns='http://www.w3.org/2005/Atom'><link rel='alternate'>http://x/</link><col>c</col><base>b</base><area>a</area></entry><body>after</body></message>", "stanza.Message", "v2", "", "")
 	for _, st := range []string{"message", "presence", "iq"} {
 		add("no-namespace/"+st, "plain", "<"+st+" xmlns='' id='nn1' from='a@b'><body>x</body></"+st+">", "", "", "", "")
 	}
